@@ -567,6 +567,10 @@ class Controller:
         )
 
     def find_connection_by_handle(self, handle: int) -> Connection | None:
+        if handle == 0:
+            # Handles are allocated from 1; 0 is what the entry of a BR/EDR connection
+            # that is still being paged carries, and that is not a connection yet.
+            return None
         for connection in itertools.chain(
             self.le_connections.values(),
             self.classic_connections.values(),
